@@ -28,6 +28,9 @@ ASSUMPTIONS = ["dimension-wise full-space assertions are strict until the first 
                "cell strategy: unit cube only (its parent-cell arithmetic uses start*2^level)"]
 
 
+FORCE_PROFILE = None
+
+
 def cases(tier, seed):
     out = []
     for gen, n in (("dimwise", 420), ("modified", 90), ("extsplit", 220), ("cell", 50)):
@@ -189,7 +192,16 @@ def run_dimwise(case, res, modified=False):
                              box_kinds=["unit", "unit", "shifted", "negative", "aniso", "dyadic", "tiny", "huge"])
     if modified:
         cfg["boundary"] = False
-    cfg["profile"] = rng.choice(["real", "real", "real", "uniform", "sparse", "ties", "hotspot", "altdim", "single", "fronts", "fronts"])
+    cfg["profile"] = rng.choice(["real", "real", "real", "uniform", "sparse", "ties", "hotspot", "altdim", "single", "fronts", "fronts",
+                                 "leaddim", "leaddim"])
+    if FORCE_PROFILE:
+        cfg["profile"] = FORCE_PROFILE      # harness development aid (tools / probes); never set by the checks
+    if cfg["profile"] == "leaddim":
+        # strongly anisotropic histories: one (mostly later) dimension runs several levels ahead before the others follow
+        cfg["steps"] = max(cfg["steps"], 7 if cfg["d"] <= 2 else 5)
+        cfg["rebalancing"] = cfg["rebalancing"] and rng.random() < 0.3
+        if rng.random() < 0.6 and cfg["d"] <= 3:
+            cfg["lmin"], cfg["lmax"] = rng.choice([(1, 3), (1, 3), (2, 4), (1, 4)]) if cfg["d"] == 2 else (1, 3)
     if rng.random() < 0.4:
         cfg["version"] = 6          # the default coarsening version carries more weight than the alternatives
     if cfg["profile"] == "fronts":
